@@ -232,6 +232,7 @@ def parseQOp (a : List String) : M QOp := do
   | "idxmut" => return .indexMutSet (← unh (← argAt a 1)) (← unh (← argAt a 2))
   | "tfi" => return .tryFromIter (← pairArgs (a.drop 1))
   | "cf" => return .cloneFrom (← pairArgs (a.drop 1))
+  | "tfih" => return .tryFromIter (← pairArgs (a.drop 1))
   | "eqk" => return .eqKey (← natArg a 1) (← unh (← argAt a 2))
   | "cmpk" => return .cmpKey (← natArg a 1) (← unh (← argAt a 2))
   | "tgck" => return .tryGetChecksum
@@ -613,6 +614,11 @@ def opShape (bitsTok : String) (rest : List String) : M String := do
     let s ← unh (← argAt rest 1)
     let (r, log) := parseWith U (famShape bits) s []
     famShow r log
+  | "new" =>
+    -- `GenericPurl::new(type, name)` is `builder(type, name).build()`
+    let b : GPurl Str := ⟨← unh (← argAt rest 1), { name := ← unh (← argAt rest 2) }⟩
+    let (r, log) := buildWith U (famShape bits) b []
+    return "b=" ++ (← famShow r log)
   | "build" =>
     let b : GPurl Str := ⟨← unh (← argAt rest 1), { name := ← unh (← argAt rest 2) }⟩
     let ops ← parseBScript mkStrTy (← argAt rest 3)
